@@ -62,9 +62,10 @@ func (c *compressor) compressCellblocks(cbs net.Buffers, uncompressedLen uint32)
 }
 
 func readN(b []byte, n int) ([]byte, []byte, error) {
-	if len(b) < n {
+	// n is negative for a uint32 length above MaxInt32 where ints have 32 bits
+	if n < 0 || len(b) < n {
 		return nil, nil, fmt.Errorf(
-			"short read: want %d bytes, got %d", n, len(b))
+			"short read: want %d bytes, got %d", uint32(n), len(b))
 	}
 	return b[:n], b[n:], nil
 }
